@@ -6,6 +6,7 @@ import (
 	"math"
 	"math/big"
 	"math/bits"
+	"strings"
 	"sync/atomic"
 	"time"
 
@@ -216,8 +217,9 @@ func (c LitCase) violations() (v []string) {
 					add("t-divides-Q")
 				}
 			}
-			if t > c.Q[0] {
-				add("t-above-Q0")
+			if t > c.Q[0]>>1 {
+				// the decoder centres modulo Q_level: lattigo requires t <= Q[0]/2 (fix fb8dc0f)
+				add("t-above-half-Q0")
 			}
 		}
 	case "ckks":
@@ -513,7 +515,7 @@ func extremeClass(c LitCase, p rlwe.Parameters) string {
 	if c.LogN == rlwe.MinLogN || c.LogN == rlwe.MaxLogN {
 		s += "logN-end,"
 	}
-	if c.Scheme == "bgv" && len(p.Q()) > 0 && c.T > p.Q()[0]/2 {
+	if c.Scheme == "bgv" && len(p.Q()) > 0 && c.T > p.Q()[0]/4 {
 		s += "t-close-Q0,"
 	}
 	if c.Scheme == "bgv" && c.T%c.root() != 1 {
@@ -872,11 +874,18 @@ func serial(c LitCase, b built, rec *h.Rec) error {
 // smoke: the functional battery on an accepted context.
 func smoke(c LitCase, b built, soft []string, rec *h.Rec) error {
 	p := b.rl
+	// an oversize modulus that lattigo generated itself (LogQ/LogP request) is not the lax-CheckModuli finding
+	generated := func(e error, gen bool) error {
+		if f, ok := e.(*h.Failure); ok && gen && strings.Contains(f.Key, "oversize-modulus") {
+			return &h.Failure{Key: f.Key + ":generated-by-GenModuli", Msg: f.Msg}
+		}
+		return e
+	}
 	if e := ringSmoke(p.RingQ(), "Q", c.Seed, rec); e != nil {
-		return knownOr(e, rec)
+		return knownOr(generated(e, c.LogQ != nil), rec)
 	}
 	if e := ringSmoke(p.RingP(), "P", c.Seed+1, rec); e != nil {
-		return knownOr(e, rec)
+		return knownOr(generated(e, c.LogP != nil), rec)
 	}
 	switch {
 	case b.bg != nil:
@@ -1057,8 +1066,8 @@ func genLiteral(t *rapid.T) LitCase {
 			tm = uint64(16) << uint(rapid.IntRange(0, c.LogN+1-4).Draw(t, "tOrder"))
 		}
 		tb := rapid.IntRange(h.MinPrimeBits(tm), 40).Draw(t, "tbits")
-		if tb >= q0bits {
-			tb = q0bits - 1
+		if tb >= q0bits-1 {
+			tb = q0bits - 2 // t < 2^(q0bits-2) <= Q0/2
 		}
 		if tb < h.MinPrimeBits(tm) {
 			tb = h.MinPrimeBits(tm)
@@ -1259,7 +1268,8 @@ func genLiteral(t *rapid.T) LitCase {
 		c.T = nonFriendlyPrime(c.T, 16)
 	case "tCloseQ0":
 		if !logMode {
-			for v := c.Q[0] - m; v > m; v -= m {
+			// the largest admissible plaintext modulus: prime = 1 mod 2N just below Q0/2
+			for v := (c.Q[0] >> 1) - ((c.Q[0]>>1)-1)%m; v > m; v -= m {
 				if h.IsPrime64(v) && !used[v] {
 					c.T = v
 					break
@@ -1280,4 +1290,4 @@ func genLiteral(t *rapid.T) LitCase {
 	return c
 }
 
-var propLiteral = h.NewProp("TestPropLiteral", h.Budget{Quick: 1600, Thorough: 40000}, genLiteral, runLiteral)
+var propLiteral = h.NewProp("TestPropLiteral", h.Budget{Quick: 3000, Thorough: 40000}, genLiteral, runLiteral)
